@@ -829,6 +829,10 @@ struct BCounts {
     kern_instance_ids: u64,
     cases_with_data_ids: u64,
     marker_files: u64,
+    order_only_byte_differences: u64,
+    eq_false_but_file_is_the_font_table: u64,
+    product_ms: u64,
+    inproc_ms: u64,
 }
 
 impl BCounts {
@@ -849,6 +853,10 @@ impl BCounts {
         self.kern_instance_ids += o.kern_instance_ids;
         self.cases_with_data_ids += o.cases_with_data_ids;
         self.marker_files += o.marker_files;
+        self.order_only_byte_differences += o.order_only_byte_differences;
+        self.eq_false_but_file_is_the_font_table += o.eq_false_but_file_is_the_font_table;
+        self.product_ms += o.product_ms;
+        self.inproc_ms += o.inproc_ms;
     }
 }
 
@@ -858,6 +866,41 @@ const MARKER: &str = "features.marker";
 /// The documented session-only field: ExtraFeaTables.os2_builder is `#[serde(skip)]` / "not
 /// persisted" (fontbe/src/orchestration.rs), so this one id may read back unequal.
 const EXEMPT_ID: &str = "ExtraFeaTables";
+/// BE ids that are single tables: id kind -> table tag (file `<kind lower-cased>.table`).
+const TABLE_IDS: [(&str, &[u8; 4]); 26] = [
+    ("Avar", b"avar"), ("Cmap", b"cmap"), ("Colr", b"COLR"), ("Cpal", b"CPAL"), ("Fvar", b"fvar"), ("Gasp", b"gasp"),
+    ("Glyf", b"glyf"), ("Gpos", b"GPOS"), ("Gsub", b"GSUB"), ("Gdef", b"GDEF"), ("Gvar", b"gvar"), ("Head", b"head"),
+    ("Hhea", b"hhea"), ("Hmtx", b"hmtx"), ("Hvar", b"HVAR"), ("Loca", b"loca"), ("Maxp", b"maxp"), ("Meta", b"meta"),
+    ("Mvar", b"MVAR"), ("Name", b"name"), ("Os2", b"OS/2"), ("Post", b"post"), ("Stat", b"STAT"), ("Vhea", b"vhea"),
+    ("Vmtx", b"vmtx"), ("Vvar", b"VVAR"),
+];
+
+/// The option set as arguments of the product binary (clap: plain flags except the tri-state ones).
+fn cli_args(o: &fcx::Opts) -> Vec<String> {
+    let mut v = vec![];
+    if o.flatten {
+        v.push("--flatten-components=true".to_string())
+    }
+    if o.decompose {
+        v.push("--decompose-components".to_string())
+    }
+    if o.decompose_transformed {
+        v.push("--decompose-transformed-components".to_string())
+    }
+    if o.no_prefer_simple {
+        v.push("--prefer-simple-glyphs=false".to_string())
+    }
+    if o.keep_direction {
+        v.push("--keep-direction".to_string())
+    }
+    if o.no_production_names {
+        v.push("--no-production-names".to_string())
+    }
+    if o.skip_features {
+        v.push("--skip-features".to_string())
+    }
+    v
+}
 
 /// One (source, option set): all sub-checks. Findings: (class key, message).
 fn check_build(src_name: &str, path: &Path, opts: &fcx::Opts, product: bool, cnt: &mut BCounts, sample: Option<&mut Vec<Value>>) -> Vec<(String, String)> {
@@ -865,6 +908,7 @@ fn check_build(src_name: &str, path: &Path, opts: &fcx::Opts, product: bool, cnt
     cnt.cases += 1;
     let on = opts.name();
     // (a) in process
+    let t_in = std::time::Instant::now();
     let plain = fcx::compile(path, opts, None);
     let ir = vcore::Scratch::new("c14-ir");
     let rec = Arc::new(Recorder { events: Mutex::new(vec![]) });
@@ -872,6 +916,7 @@ fn check_build(src_name: &str, path: &Path, opts: &fcx::Opts, product: bool, cnt
     let with_ir = fcx::compile(path, opts, Some(ir.path()));
     fontdrasil::verif::install(None);
     let events = std::mem::take(&mut *rec.events.lock().unwrap());
+    cnt.inproc_ms += t_in.elapsed().as_millis() as u64;
     match (&plain, &with_ir) {
         (Ok(a), Ok(b)) => {
             cnt.built += 1;
@@ -891,24 +936,80 @@ fn check_build(src_name: &str, path: &Path, opts: &fcx::Opts, product: bool, cnt
         (Ok(_), Err(e)) => bad.push(("build-fails-only-with-ir:in-process".into(), failure_text(e))),
         (Err(e), Ok(_)) => bad.push(("build-fails-only-without-ir:in-process".into(), failure_text(e))),
     }
-    // (b) read back
+    // (b) read back. Per id: the verdict of `==` where the hook could use it, else of the
+    // re-serialised bytes. Two things are not failures of the property and are sorted out here:
+    //  * re-serialised bytes differ but `==` holds: IR structs hold HashMaps, whose iteration
+    //    order differs between the value in memory and the one read back;
+    //  * `==` fails for a binary table although the file holds exactly the bytes that end up in
+    //    the font: write-fonts tables are not in canonical form before they are dumped.
     cnt.persisted_events += events.len() as u64;
-    let mut ids: BTreeMap<&str, u32> = BTreeMap::new();
+    // id -> (eq verdicts, bytes verdicts)
+    let mut ids: BTreeMap<&str, (Vec<bool>, Vec<bool>)> = BTreeMap::new();
+    let mut kern_instance_writes = 0usize;
     for (id, how, ok) in &events {
-        *ids.entry(id.as_str()).or_default() += 1;
+        let e = ids.entry(id.as_str()).or_default();
         if how == "eq" {
             cnt.persisted_eq += 1;
+            e.0.push(*ok);
         } else {
             cnt.persisted_bytes += 1;
-        }
-        if !ok {
-            if id.contains(EXEMPT_ID) {
-                cnt.exempt_events += 1;
-            } else {
-                // class: the id kind (text before the first parenthesised argument of the innermost id)
-                let kind: String = id.replace("Fe(", "").replace("Be(", "").split('(').next().unwrap_or("").trim_end_matches(')').to_string();
-                bad.push((format!("ir-readback-differs:{kind}"), format!("{id} written to the IR directory does not read back equal (compared by {how})")));
+            e.1.push(*ok);
+            if id.contains("KernInstance(") {
+                kern_instance_writes += 1;
             }
+        }
+    }
+    let font_tables = plain.as_ref().ok().and_then(|b| write_fonts::read::FontRef::new(b).ok());
+    for (id, (eqs, bytes)) in &ids {
+        // class: the id kind (text before the first argument of the innermost id)
+        let kind: String = id.replace("Fe(", "").replace("Be(", "").split('(').next().unwrap_or("").trim_end_matches(')').to_string();
+        if id.contains(EXEMPT_ID) {
+            cnt.exempt_events += eqs.iter().chain(bytes).filter(|ok| !**ok).count() as u64;
+            continue;
+        }
+        if !eqs.is_empty() {
+            if eqs.iter().all(|ok| *ok) {
+                if bytes.iter().any(|ok| !*ok) {
+                    cnt.order_only_byte_differences += 1;
+                }
+                continue;
+            }
+            // `==` failed: a binary table whose file is byte-identical to the table in the font?
+            let tag = TABLE_IDS.iter().find(|(k, _)| *k == kind).map(|(_, t)| *t);
+            let file = ir.path().join(format!("{}.table", kind.to_lowercase()));
+            let same_as_font = match (tag, &font_tables, std::fs::read(&file)) {
+                (Some(tag), Some(f), Ok(on_disk)) => {
+                    use write_fonts::read::TableProvider;
+                    let _ = f.head();
+                    f.table_data(Tag::new(tag)).map(|d| d.as_bytes() == on_disk.as_slice()).unwrap_or(false)
+                }
+                _ => false,
+            };
+            if same_as_font {
+                cnt.eq_false_but_file_is_the_font_table += 1;
+            } else {
+                bad.push((format!("ir-readback-differs:{kind}"), format!("{id} written to the IR directory does not read back equal (`==` on the value read back fails{})",
+                    if tag.is_some() { " and the file is not byte-identical to that table of the font" } else { "" })));
+            }
+        } else if bytes.iter().any(|ok| !*ok) {
+            // no `==` available: does the real reader even accept the file?
+            let mut what = "re-serialising the value read back gives other bytes".to_string();
+            let mut key = format!("ir-readback-differs:{kind}");
+            if kind == "GlyfFragment" {
+                let name = id.trim_start_matches("Be(GlyfFragment(").trim_end_matches("))");
+                let file = ir.path().join("glyphs").join(string_to_filename(name, ".glyf"));
+                if let Ok(on_disk) = std::fs::read(&file) {
+                    use fontir::orchestration::Persistable;
+                    let r = catch_unwind(AssertUnwindSafe(|| {
+                        let _ = <fontbe::orchestration::Glyph as Persistable>::read(&mut on_disk.as_slice());
+                    }));
+                    if let Err(p) = r {
+                        key = format!("ir-readback-panics:{kind}");
+                        what = format!("the reader panics on the {}-byte file {:?}: {}", on_disk.len(), file.file_name().unwrap_or_default(), panic_msg(p));
+                    }
+                }
+            }
+            bad.push((key, format!("{id} written to the IR directory does not read back: {what}")));
         }
     }
     // (d) one file per id, no other files
@@ -918,10 +1019,14 @@ fn check_build(src_name: &str, path: &Path, opts: &fcx::Opts, product: bool, cnt
         let marker = files.iter().filter(|f| *f == MARKER).count();
         cnt.marker_files += marker as u64;
         let data_files = files.len() - marker;
-        cnt.distinct_ids += ids.len() as u64;
+        // kerning-instance ids print their location with two decimals, so two of them can share a
+        // Debug string: count their writes instead (one write per instance)
+        let kern_strings = ids.keys().filter(|i| i.contains("KernInstance(")).count();
+        let id_count = ids.len() - kern_strings + kern_instance_writes;
+        cnt.distinct_ids += id_count as u64;
         cnt.files += data_files as u64;
         let named = ids.keys().filter(|i| ["Glyph(", "Anchor(", "GlyfFragment(", "GvarFragment("].iter().any(|k| i.contains(k))).count();
-        let kern_ids = ids.keys().filter(|i| i.contains("KernInstance(")).count();
+        let kern_ids = kern_instance_writes;
         let kern_files = files.iter().filter(|f| f.starts_with("kern_") && f.ends_with(".yml") && *f != "kern_locations.yml").count();
         cnt.named_ids += named as u64;
         cnt.kern_instance_ids += kern_ids as u64;
@@ -930,20 +1035,20 @@ fn check_build(src_name: &str, path: &Path, opts: &fcx::Opts, product: bool, cnt
         }
         if kern_files < kern_ids {
             bad.push(("kern-instance-filename-collision".into(), format!("{kern_ids} kerning instances were persisted into {kern_files} files: {:?}", files.iter().filter(|f| f.starts_with("kern_")).collect::<Vec<_>>())));
-        } else if data_files < ids.len() {
+        } else if data_files < id_count {
             let mut listing = files.clone();
             listing.sort();
-            bad.push(("ir-ids-share-a-file".into(), format!("{} distinct ids were persisted but the IR directory holds {data_files} files (besides {MARKER}): ids {:?}; files {listing:?}", ids.len(), ids.keys().collect::<Vec<_>>())));
-        } else if data_files > ids.len() {
+            bad.push(("ir-ids-share-a-file".into(), format!("{id_count} distinct ids were persisted but the IR directory holds {data_files} files (besides {MARKER}): ids {:?}; files {listing:?}", ids.keys().collect::<Vec<_>>())));
+        } else if data_files > id_count {
             let mut listing = files.clone();
             listing.sort();
-            bad.push(("ir-file-without-id".into(), format!("{data_files} files (besides {MARKER}) for {} persisted ids: ids {:?}; files {listing:?}", ids.len(), ids.keys().collect::<Vec<_>>())));
+            bad.push(("ir-file-without-id".into(), format!("{data_files} files (besides {MARKER}) for {id_count} persisted ids: ids {:?}; files {listing:?}", ids.keys().collect::<Vec<_>>())));
         }
         if let Some(s) = sample {
             let mut listing = files.clone();
             listing.sort();
             s.push(json!({"source": src_name, "options": on, "font_bytes": plain.as_ref().map(|b| b.len()).unwrap_or(0),
-                "persisted_ids": ids.len(), "ir_files": files.len(), "persisted_events": events.len(),
+                "persisted_ids": id_count, "ir_files": files.len(), "persisted_events": events.len(),
                 "some_ids": ids.keys().take(6).collect::<Vec<_>>(), "some_files": listing.iter().take(8).collect::<Vec<_>>()}));
         }
     }
@@ -959,13 +1064,18 @@ fn check_build(src_name: &str, path: &Path, opts: &fcx::Opts, product: bool, cnt
             if emit {
                 cmd.arg("--emit-ir");
             }
-            cmd.args(opts.cli_args());
+            cmd.args(cli_args(opts));
             let o = vcore::run_proc(&mut cmd, 120_000, Some(8 << 30));
             let bytes = std::fs::read(&out).ok();
             (o, bytes)
         };
+        let t0 = std::time::Instant::now();
         let (pa, fa) = run(false);
         let (pb, fb) = run(true);
+        cnt.product_ms += t0.elapsed().as_millis() as u64;
+        if pa.code == Some(2) && pa.stderr.contains("Usage:") {
+            vcore::machinery_error(&format!("the product binary rejects the arguments {:?}: {}", cli_args(opts), pa.stderr));
+        }
         match (pa.code, pb.code, fa, fb) {
             (Some(0), Some(0), Some(a), Some(b)) => {
                 if a == b {
@@ -1075,6 +1185,10 @@ fn part_font(rep: &mut Reporter, tier: Tier) -> Stats {
     rep.set("persisted_events_compared_by_eq", total.persisted_eq);
     rep.set("persisted_events_compared_by_bytes", total.persisted_bytes);
     rep.set("persisted_events_exempt_not_equal", total.exempt_events);
+    rep.set("ids_whose_reserialised_bytes_differ_in_map_order_only", total.order_only_byte_differences);
+    rep.set("table_ids_unequal_in_memory_but_file_identical_to_font_table", total.eq_false_but_file_is_the_font_table);
+    rep.set("build_ms_in_process_total", total.inproc_ms);
+    rep.set("build_ms_product_binary_total", total.product_ms);
     rep.set("persisted_distinct_ids", total.distinct_ids);
     rep.set("ir_files", total.files);
     rep.set("ir_marker_files", total.marker_files);
